@@ -183,6 +183,35 @@ def C16(tier, seed):
                         assumptions=EXPORT_ASSUME, stubs=EXPORT_STUBS)
 
 
+def C18(tier, seed):
+    from harness import candgraph
+    from .core import Run
+
+    q = tier == "quick"
+    runs = [
+        Run("points:M=%d" % (3 if q else 4), candgraph.points_harness, dict(M=3 if q else 4, frames=4),
+            candgraph.points_replay, ("built", "witness:frame_gap"),
+            "%d detections, each in any of 4 frames (empty frames and gaps included), positions and maximum "
+            "distance arbitrary reals" % (3 if q else 4)),
+        Run("seg:%s" % ("3x2" if q else "3x3"), candgraph.seg_harness,
+            dict(shape=(3, 2) if q else (3, 3), labels=3, scale="sym"), candgraph.seg_replay,
+            ("built", "witness:empty_middle_frame"),
+            "label array 3 frames x %d cells, labels 0..3 unique across time, symbolic spacing and distance"
+            % (2 if q else 3)),
+    ]
+    if not q:
+        runs.append(Run("points3d:M=3", candgraph.points_harness, dict(M=3, frames=3, dims=3),
+                        candgraph.points_replay, ("built",), "3 detections in 3 frames, 3 spatial dimensions"))
+    return run_property("C18", tier, runs, explanation=R.EXPL, seed=seed, assumptions=[
+        "scipy KDTree.query_ball_tree is a contract stub: indices j with sum (a-b)^2 <= r^2 (closed ball, p=2); the "
+        "real tree's boundary/rounding behaviour is out of reach",
+        "skimage regionprops is a contract stub (one region per label present; area/centroid uninterpreted functions "
+        "of the mask bits and spacing); candidate_graph.iou._compute_ious is a contract stub",
+        "points list: scale=None (scaling is one numpy multiplication); segmentation labels unique across time "
+        "(documented precondition)"],
+        stubs=["KDTree", "skimage.measure.regionprops", "_compute_ious", "tqdm"])
+
+
 def replay_file(prop, path):
     from harness import labels, relabel, seg_replay, step_replay
 
@@ -198,6 +227,10 @@ def replay_file(prop, path):
         fn = labels.bytrack_replay
     elif run in ("relabel_segmentation", "handle_segmentation"):
         fn = relabel.replay
+    elif prop == "C18":
+        from harness import candgraph
+
+        fn = candgraph.points_replay if run.startswith("points") else candgraph.seg_replay
     elif run.startswith("export:"):
         from harness import export_replay
 
